@@ -65,6 +65,10 @@ GRACES = [0, 3600000, 10 ** 12]
 REAL_SPELLINGS = ["abs", "rel", "dot", "trail", "dslash", "symlink", "unicode", "d", "da", "dat", "data", "m", "me", "metadata", "datax", "t/data"]
 S3_SPELLINGS = [("", "data"), ("", "d"), ("", "da"), ("", "metadata"), ("", "m"), ("", "/data"), ("", "data/"), ("data", "t"), ("d", "ata"),
                 ("wh", "data"), ("wh/", "/data/"), ("data", ""), ("", "logs/data"), ("", "datax"), ("metadata", "manifests"), ("", "tbl")]
+# where a caller-built data file handed to append_files() lives, relative to the table root: the table's own data
+# directory (and below it), the directories the library manages itself (manifests, in-flight markers, metadata, locks), any
+# other directory, the root itself, and "<table location>/data" INSIDE the table (the legacy absolute spelling of data/<name>)
+PLACES = ["data", "data", "data", "data/sub", "metadata/manifests", "metadata/manifests", "metadata", "metadata/inflight", ".locks", "other/dir", "", "@tp/data"]
 SIM_SPELLINGS = ["sim:/data", "sim:/metadata", "sim:/", "sim:", "sim:/data/", "sim:data/", "sim:/d", "sim:s3-bucket-prefix/data"]
 
 
@@ -76,7 +80,8 @@ def gen_ops(rng: random.Random, n: int, final_grace: int) -> List[Dict[str, Any]
         if r < 0.18:
             ops.append({"op": "append", "spell": rng.choice([0, 0, 0, 1, 2, 1, 2, 3, 4, 5])})
         elif r < 0.30:
-            ops.append({"op": "append_prebuilt", "spell": rng.randrange(6), "fmt": rng.choice(["parquet", "parquet", "other"])})
+            ops.append({"op": "append_prebuilt", "spell": rng.randrange(6), "fmt": rng.choice(["parquet", "parquet", "other"]),
+                        "place": rng.choice(PLACES), "inflight_name": rng.random() < 0.5})
         elif r < 0.38:
             ops.append({"op": "multi", "appends": rng.choice([1, 2]), "delete": rng.choice([None, rng.randrange(8)])})
         elif r < 0.50:
@@ -132,6 +137,7 @@ def _spell(path: str, spell: int) -> str:
     """0..2: the canonical spellings of one file; 3..5: spellings that only a filesystem identifies with it."""
     rel = path.lstrip("/")
     d, _, name = rel.rpartition("/")
+    d = d or "."
     return ["/" + rel, rel, "//" + rel, f"{d}//{name}", f"{d}/./{name}", f"{d}/x/../{name}"][spell]
 
 
@@ -179,14 +185,20 @@ def exec_history(case: Dict[str, Any]) -> Dict[str, Any]:
                     import pyarrow as pa
                     import pyarrow.parquet as pq
                     from datashard.data_structures import DataFile, FileFormat
-                    name = f"pre_{opi}_{next(counter)}.parquet"
-                    full = os.path.join(os.path.realpath(root), "data", name)
+                    place = op.get("place", "data")
+                    if place.startswith("@tp"):
+                        place = ((override if override is not None else tp).strip("/") + place[3:]).strip("/")
+                    name = f"pre_{opi}_{next(counter)}" + (".inflight" if place == "metadata/inflight" and op.get("inflight_name") else ".parquet")
+                    rel = f"{place}/{name}" if place else name
+                    full = os.path.join(os.path.realpath(root), rel)
                     os.makedirs(os.path.dirname(full), exist_ok=True)
                     pq.write_table(pa.table({"x": pa.array([next(counter), next(counter)], pa.int64())}), full)
+                    if op.get("place", "").startswith("@tp"):
+                        _plant(root, f"data/{name}", b"PAR1 an orphan whose key an alias entry normalises to")
                     fmt = FileFormat.PARQUET if op.get("fmt", "parquet") == "parquet" else [f for f in FileFormat if f != FileFormat.PARQUET][0]
                     tx = t.new_transaction().begin()
                     try:
-                        tx.append_files([DataFile(file_path=_spell(f"data/{name}", op["spell"]), file_format=fmt, partition_values={},
+                        tx.append_files([DataFile(file_path=_spell(rel, op["spell"]), file_format=fmt, partition_values={},
                                                   record_count=2, file_size_in_bytes=os.path.getsize(full))])
                         tx.commit()
                     except Exception:
@@ -295,13 +307,16 @@ def do_collect(t: Any, reader: gcsim.IndepReader, root: str, tp_seen: str, overr
     arng = random.Random(ages_seed)
     real_root = os.path.realpath(root)
     old_keys, young_keys = set(), set()
+    reach = reader.reachable()
+    # file ages are arbitrary inputs: every file under the swept directories AND every file a retained snapshot references
+    # (wherever it lives) lands on either side of the grace cutoff, some of them beyond the marker abandonment window too
     for key in sorted(gcsim.list_tree(root)):
-        if key.startswith("data/") or key.startswith("metadata/manifests/"):
+        if key.startswith("data/") or key.startswith("metadata/manifests/") or key in reach:
             old = arng.random() < 0.6
-            ts = now - grace / 1000.0 + (-100.0 if old else 100.0)
+            ancient = old and arng.random() < 0.4
+            ts = now - grace / 1000.0 + (-100.0 if old else 100.0) - (TIMEOUT_MS / 1000.0 if ancient else 0.0)
             os.utime(os.path.join(real_root, key), (ts, ts))
             (old_keys if old else young_keys).add(key)
-    reach = reader.reachable()
     live = reader.live_protected(now, TIMEOUT_MS)
     snaps = [s.get("manifest_list") or "" for s in reader.snapshots()]
     store = gcsim.store_term(root)
